@@ -116,6 +116,9 @@ def edit_listing(rng, text: str):
     if rng.random() < 0.3:
         out = ["", "x.o:     file format elf64-x86-64", ""] + out
         edits.append("file-header-added")
+    if rng.random() < 0.12:
+        edits.append("crlf-line-endings")        # the same listing saved with Windows line endings
+        return "\r\n".join(out), edits
     return "\n".join(out), edits
 
 
@@ -141,7 +144,7 @@ def judge(ctx, ws, text, origin):
     if not rinsts:
         return
     text2, edits = edit_listing(ctx.rng, text)
-    p1, p2 = ws.write("a.s", text), ws.write("b.s", text2)
+    p1, p2 = ws.write("a.s", text), ws.write("b.s", text2.encode())      # bytes: keep the chosen line endings as they are
     r1 = objd.real_stream(ws, p1)
     if r1[0] != "ok":
         ctx.inconc("parser raised on the base listing (left to C08)")
@@ -205,7 +208,7 @@ def run_shard(ctx):
 
 def replay(ctx, case):
     ws = real.Workspace()
-    p1, p2 = ws.write("a.s", case["listing"]), ws.write("b.s", case["edited"])
+    p1, p2 = ws.write("a.s", case["listing"]), ws.write("b.s", case["edited"].encode())
     r1, r2 = objd.real_stream(ws, p1), objd.real_stream(ws, p2)
     ctx.ran(2)
     if r1[0] == "ok" and (r2[0] != "ok" or r1[1] != r2[1]):
